@@ -1,6 +1,6 @@
 /* C17 - distinct managers are independent.
  * Step 1 (M-state, interleavings at call granularity): two managers (all 49 ordered variant pairs, incl. the same
- *   variant twice), each running one of NPROG six-call histories (jobs that complete at submit, jobs that park in
+ *   variant twice), each running one of NPROG (10) six-call histories (jobs that complete at submit, jobs that park in
  *   out-of-order lanes, a rejected job, flush / get_completed / queue_size, direct-API calls); ALL C(12,6) = 924
  *   interleavings of the two histories in one thread, each from the pristine images. Oracle: every call of each
  *   manager observes exactly what it observes in the solo run (returned job, status, per-manager error code,
@@ -38,7 +38,9 @@ static struct {
         uintptr_t addr, rip;
 } ACC[MAXACC];
 static volatile int NACC, ACC_OVER;
-static long long n_traps, n_monitored_calls;
+static long long n_traps, n_monitored_calls, n_adversary_writes;
+static volatile int mon_adversary;
+static volatile int *errno_addr;
 
 static int
 sym_of(uintptr_t a)
@@ -75,6 +77,12 @@ on_segv(int s, siginfo_t *si, void *u)
         }
         n_traps++;
         mprotect(mon_lo, (size_t) (mon_hi - mon_lo), PROT_READ | PROT_WRITE);
+        if (mon_adversary && !wr && errno_addr && a >= (uint8_t *) errno_addr && a < (uint8_t *) errno_addr + 4) {
+                /* adversarial mirror: just before the library reads the process-wide error mirror, "another thread's manager"
+                 * stores an error there - a write that may happen at any time in a multi-threaded process */
+                *errno_addr = IMB_ERR_JOB_NULL_SRC;
+                n_adversary_writes++;
+        }
         uc->uc_mcontext.gregs[REG_EFL] |= 0x100; /* single-step the faulting instruction */
 }
 static void
@@ -148,6 +156,11 @@ mon_init(void)
         pclose(p);
         if (!NSY)
                 DIE("no symbols in the monitored range");
+        for (int i = 0; i < NSY; i++)
+                if (!strcmp(SY[i].name, "imb_errno"))
+                        errno_addr = (volatile int *) SY[i].a;
+        if (!errno_addr)
+                DIE("imb_errno not found among the library's writable symbols");
         struct sigaction sa;
         memset(&sa, 0, sizeof sa);
         sa.sa_flags = SA_SIGINFO | SA_NODEFER;
@@ -179,7 +192,7 @@ mon_disarm(void)
         n_monitored_calls++;
         for (int i = 0; i < NACC; i++) {
                 const char *nm = ACC[i].sym >= 0 ? SY[ACC[i].sym].name : "(no symbol)";
-                int ok = !strcmp(nm, "imb_errno");
+                int ok = !strcmp(nm, "imb_errno"); /* reads of the mirror are judged by the adversarial-mirror pass below */
                 ok |= !strncmp(nm, "cpuid_", 6) && (!strcmp(mon_label, "init") || !strcmp(mon_label, "alloc"));
                 ok |= !strncmp(nm, "counter.", 8) && !strcmp(mon_label, "set_session");
                 ok |= !strcmp(nm, "imb_version_str") && !ACC[i].wr;
@@ -470,6 +483,9 @@ main(void)
                                 ctx_reset(CTX[v][k]);
                                 for (int s = 0; s < PLEN; s++) {
                                         uint64_t o = step(CTX[v][k], &PROG[p][s]);
+                                        /* non-vacuity: every job of a history except the deliberately invalid one must be accepted */
+                                        if (PROG[p][s].kind == K_SUBMIT && CTX[v][k]->m->imb_errno && !(s > 0 && PROG[p][s - 1].bad))
+                                                DIE("history %d step %d: job rejected on %s (errno %d)", p, s, VARIANTS[v].name, CTX[v][k]->m->imb_errno);
                                         if (k == 0)
                                                 SOLO[v][p][s] = o;
                                         else if (o != SOLO[v][p][s])
@@ -478,6 +494,48 @@ main(void)
                         }
                 }
         }
+        /* adversarial-mirror pass: the same solo histories and a re-initialisation, with a foreign error code stored into the
+         * process-wide mirror immediately before every read the library makes of it. What the manager's owner observes
+         * (returned jobs, statuses, per-manager error code, outputs; after init: the whole manager image) must not change. */
+        mon_adversary = 1;
+        for (int v = 0; v < NVARIANTS; v++) {
+                if (!CTX[v][0])
+                        continue;
+                mctx_t *c = CTX[v][0];
+                g_v = v;
+                for (int p = 0; p < NPROG; p++) {
+                        ctx_reset(c);
+                        g_ctx = "adversarial-mirror";
+                        for (int s = 0; s < PLEN; s++)
+                                if (step(c, &PROG[p][s]) != SOLO[v][p][s]) {
+                                        rec_begin("viol");
+                                        rec_s("site", "foreign-error-code-changes-result");
+                                        rec_s("alg", "history");
+                                        rec_s("variant", VARIANTS[v].name);
+                                        rec_i("program", p);
+                                        rec_i("step", s);
+                                        rec_s("detail", "a store to the process-wide error mirror by another manager (emulated right before the library reads the mirror) changed what this manager's owner observes");
+                                        rec_end();
+                                        break;
+                                }
+                }
+                ctx_reset(c);
+                MON("init", VARIANTS[v].init(c->m));
+                if (c->m->imb_errno || memcmp(c->m, c->pristine, offsetof(IMB_MGR, earliest_job))) {
+                        rec_begin("viol");
+                        rec_s("site", "foreign-error-code-changes-result");
+                        rec_s("alg", "init");
+                        rec_s("call", "init");
+                        rec_s("variant", VARIANTS[v].name);
+                        rec_i("errno", c->m->imb_errno);
+                        rec_s("detail", "initialising a manager while another manager's error sits in the process-wide mirror (emulated store right before the library reads the mirror) failed or bound something else");
+                        rec_end();
+                }
+                memcpy(c->m, c->pristine, mgr_sz);
+        }
+        mon_adversary = 0;
+        *errno_addr = 0;
+        stat_add("adversarial_mirror_writes", n_adversary_writes);
         stat_add("monitored_calls", n_monitored_calls);
         stat_add("monitor_traps", n_traps);
         n_monitored_calls = n_traps = 0;
